@@ -204,9 +204,24 @@ def run_case(case, ctx):
     truth_of, nreads = {}, {}
     for op in ops:
         h = handle()
+        if backend == 'blob':
+            h.latency = 0.002        # the downloads of one fan-out overlap (up to 20 in flight) and complete almost together
         r = SgzReader(h)
         mark = len(h.log)
-        truth_of[repr(op)] = run_op_guarded(r, op)
+        import sys as _sys
+        swi = _sys.getswitchinterval()
+        if backend == 'blob':
+            _sys.setswitchinterval(1e-6)     # ... and the interpreter hands over between the pool threads as often as it can (any hand-over point is legal)
+        try:
+            if backend == 'blob':
+                # ... at any statement boundary of the loader (yield injection, monitors.YieldInjector)
+                with monitors.YieldInjector(seed=len(truth_of)) as yi:
+                    truth_of[repr(op)] = run_op_guarded(r, op)
+                counters['injected_yields'] = counters.get('injected_yields', 0) + yi.yields
+            else:
+                truth_of[repr(op)] = run_op_guarded(r, op)
+        finally:
+            _sys.setswitchinterval(swi)
         nreads[repr(op)] = len(h.log) - mark
         counters['range_reads_seen'] += len(h.log)
         finish(h, r)
